@@ -32,6 +32,13 @@ theorem C13_pipeline {α : Type} [DecidableEq α] (L R : List α) (n : Nat) :
       d2.edits = editScript L R :=
   C13.pipeline_ok L R n (editScript_Valid L R)
 
+/-- **C13, context bound after `Unify`** for every `L`, `R`, `n` — no hypotheses: in every unified
+chunk at most `n` Emit lines before the first and after the last change, at most `2n` between two. -/
+theorem C13_context_bound {α : Type} [DecidableEq α] (L R : List α) (n : Nat) :
+    ∃ d1 d2, (new L R).addContext? n = some d1 ∧ d1.unify? = .ok d2 ∧
+      ∀ c ∈ d2.chunks, CtxBounded n c.edits :=
+  C13.pipeline_context_bound L R n (editScript_Valid L R)
+
 /-- **C14, normal format applied by the POSIX/GNU rules** — `New` and the full pipeline, no hypotheses. -/
 theorem C14_apply_normal (L R : List Line) (n : Nat) :
     DiffApply.applyNormal (normal (Model.Mdiff.new L R).chunks) L = some R ∧
